@@ -46,6 +46,17 @@ Definition severity_of (c : checker) (s : settings) (v : value) (inconclusive : 
       if is_enabled s v false then Some (if error_severity v && is_known v then SError else SWarning) else None
   end.
 
+(* ---------- CheckType::checkTooBigBitwiseShift: the width the shift count is compared with ----------
+   the left operand is promoted (C11 6.5.7): bool/char/short/int -> int_bit, long -> long_bit, long long -> long_long_bit;
+   the same for `<<` `>>` `<<=` `>>=`.  A Known count >= that width is shiftTooManyBits (error). *)
+Inductive ibase := IBool | IChar | IShort | IInt | ILong | ILLong.
+Definition own_bits (char_bit short_bit int_bit long_bit llong_bit : Z) (b : ibase) : Z :=
+  match b with IBool => 1 | IChar => char_bit | IShort => short_bit | IInt => int_bit | ILong => long_bit | ILLong => llong_bit end.
+Definition shift_lhsbits (int_bit long_bit llong_bit : Z) (b : ibase) : Z :=
+  match b with ILong => long_bit | ILLong => llong_bit | _ => int_bit end.
+Definition shift_too_many (int_bit long_bit llong_bit : Z) (b : ibase) (count : Z) : bool :=
+  shift_lhsbits int_bit long_bit llong_bit b <=? count.
+
 (* ---------- (ii) the leak machine ---------- *)
 Inductive var := P | Q.
 Definition var_eqb (a b : var) : bool := match a, b with P, P | Q, Q => true | _, _ => false end.
